@@ -105,8 +105,14 @@ func (t *TrafBox) ParseReadSenc(defaultIVSize byte, moofStartPos uint64) error {
 		if sgpdEntryNr != sbgpInsideOffset+1 {
 			return fmt.Errorf("sgpd entry number must be first inside = 65536 + 1")
 		}
+		if len(sgpd.SampleGroupEntries) == 0 {
+			return fmt.Errorf("sgpd seig box has no entries")
+		}
 		sgpdEntry := sgpd.SampleGroupEntries[sgpdEntryNr-sbgpInsideOffset-1]
-		seigEntry := sgpdEntry.(*SeigSampleGroupEntry)
+		seigEntry, ok := sgpdEntry.(*SeigSampleGroupEntry)
+		if !ok {
+			return fmt.Errorf("sgpd entry is not a seig entry")
+		}
 		perSampleIVSize = seigEntry.PerSampleIVSize
 	}
 	err := senc.ParseReadBox(perSampleIVSize, t.Saiz)
